@@ -39,16 +39,29 @@ func runC18(c *core.Ctx) {
 
 	// ------------------------------------------------------------ type names
 	c.Doc("C18.type-names", "IDL names printed = IDL names parsed (same constructor); composite tokens agree", 18)
-	bt := funcDecl(ip, "", "basicType")
-	nb := funcDecl(ip, "", "nodifyBasicType")
-	if bt == nil || nb == nil {
-		c.Undecided("C18.type-names", "meta/idl.basicType", token.NoPos, "basicType / nodifyBasicType not found")
+	prods := productionsOf(ip)
+	var basic *production
+	for i := range prods {
+		if prods[i].Kind == "OrdChoice" && prods[i].AllAtom && len(prods[i].Atoms) >= 2 {
+			basic = &prods[i]
+		}
+	}
+	if basic == nil || funcDeclOf(ip, basic.Builder) == nil {
+		c.Undecided("C18.type-names", "meta/idl.basicType", token.NoPos, "the production of the basic type names (an ordered choice of atoms with a node builder) was not found")
 	} else {
+		nb := funcDeclOf(ip, basic.Builder)
 		atoms := map[string]bool{}
-		for _, a := range atomsOf(info, bt.Body) {
+		for _, a := range basic.Atoms {
 			atoms[a] = true
 		}
-		cases := switchCaseCalls(info, nb)
+		cases := map[string]string{}
+		for _, e := range dispatchTable(ip, nb) {
+			if e.Target != nil {
+				cases[e.Key] = e.Target.Name()
+			} else {
+				cases[e.Key] = ""
+			}
+		}
 		for _, r := range ctorTable(c) {
 			if r.IDL == "" || r.Func == "NewMetaObjectType" {
 				continue
@@ -65,19 +78,27 @@ func runC18(c *core.Ctx) {
 		}
 		for a := range atoms {
 			if _, ok := cases[a]; !ok {
-				c.Fail("C18.type-names", "atom:"+a, bt.Pos(), fmt.Sprintf("the IDL grammar accepts type name %q but nodifyBasicType has no case for it", a))
+				c.Fail("C18.type-names", "atom:"+a, basic.Pos, fmt.Sprintf("the IDL grammar accepts type name %q but %s has no row for it", a, nb.Name.Name))
 			}
 		}
 	}
-	for _, q := range []struct{ typ, prod string }{{"ListType", "vecType"}, {"MapType", "mapType"}, {"TupleType", "tupleType"}} {
-		pf := funcDecl(sp, q.typ, "SignatureIDL")
-		gf := funcDecl(ip, "", q.prod)
-		key := "meta/signature." + q.typ + ".SignatureIDL"
-		if pf == nil || gf == nil {
-			c.Undecided("C18.type-names", key, token.NoPos, "printer or production not found")
+	built := map[string][]production{}
+	for _, pr := range prods {
+		if pr.Kind != "And" {
 			continue
 		}
-		want := glue(atomsOf(info, gf.Body))
+		for _, tn := range keysOf(concreteReturned(c.Prog.FuncValue(pr.Builder), 0)) {
+			built[tn] = append(built[tn], pr)
+		}
+	}
+	for _, typ := range []string{"ListType", "MapType", "TupleType"} {
+		pf := funcDecl(sp, typ, "SignatureIDL")
+		key := "meta/signature." + typ + ".SignatureIDL"
+		if pf == nil || len(built[typ]) != 1 {
+			c.Undecided("C18.type-names", key, token.NoPos, fmt.Sprintf("printer not found, or %d IDL productions build a %s (expected one)", len(built[typ]), typ))
+			continue
+		}
+		want := glue(built[typ][0].Atoms)
 		got := ""
 		var sep []string
 		for _, l := range stringLitsIn(sp.TypesInfo, pf.Body) {
@@ -95,14 +116,14 @@ func runC18(c *core.Ctx) {
 			}
 		}
 		ok := got != "" && okSep && (got == want || strings.ReplaceAll(want, ",", "") == strings.ReplaceAll(got, ",", ""))
-		c.Check(ok, "C18.type-names", key, pf.Pos(), "prints "+got+" / grammar "+want, fmt.Sprintf("%s prints tokens %q but the IDL production %s expects %q", q.typ, got, q.prod, want))
+		c.Check(ok, "C18.type-names", key, pf.Pos(), "prints "+got+" / grammar "+want, fmt.Sprintf("%s prints tokens %q but the IDL production built by %s expects %q", typ, got, built[typ][0].Builder.Name(), want))
 	}
 
 	// ------------------------------------------------------------ lines
 	c.Doc("C18.lines", "keywords and punctuation of the generated lines are parser atoms; uid read back as printed", 8)
 	allAtoms := map[string]bool{}
 	for _, f := range ip.Syntax {
-		if strings.HasSuffix(c.Fset.Position(f.Pos()).Filename, "parser.go") {
+		if !strings.HasSuffix(c.Fset.Position(f.Pos()).Filename, "_test.go") {
 			for _, a := range atomsOf(info, f) {
 				allAtoms[a] = true
 			}
@@ -110,7 +131,7 @@ func runC18(c *core.Ctx) {
 	}
 	nfmt := 0
 	for _, f := range ip.Syntax {
-		if !strings.HasSuffix(c.Fset.Position(f.Pos()).Filename, "/idl.go") {
+		if strings.HasSuffix(c.Fset.Position(f.Pos()).Filename, "_test.go") {
 			continue
 		}
 		ast.Inspect(f, func(n ast.Node) bool {
